@@ -116,6 +116,7 @@ type sMat struct {
 	Slots     []sSlot
 	Exts      []string
 	FloatFail string
+	Extras    int // class of the "extras" object: 0 absent, k for {"id": k}, -1 anything else
 }
 type sLight struct {
 	Type             string
@@ -326,6 +327,14 @@ func readDoc(js []byte) (summary, error) {
 		if t, ok := o["occlusionTexture"].(obj); ok {
 			m.Slots = append(m.Slots, sSlot{Name: "occlusionTexture", Info: texInfo(t), Extra: gFP(t, "strength")})
 		}
+		if ex, ok := o["extras"]; ok {
+			m.Extras = -1
+			if eo, isObj := ex.(obj); isObj && len(eo) == 1 {
+				if k, ok := gInt(eo, "id"); ok && k > 0 {
+					m.Extras = k
+				}
+			}
+		}
 		ext := gObj(o, "extensions")
 		m.Exts = keys(ext)
 		for _, ek := range m.Exts {
@@ -529,8 +538,8 @@ func coqSummary(s summary, fail *string) string {
 		if m.Alpha != nil {
 			al = "(Some " + cstr(*m.Alpha) + ")"
 		}
-		mats[i] = fmt.Sprintf("{| gmt_name := %s; gmt_color := %s; gmt_metal := %s; gmt_rough := %s; gmt_emissive := %s; gmt_alpha := %s; gmt_cutoff := %s; gmt_texs := %s; gmt_exts := %s |}",
-			cstr(m.Name), millis(m.Color, fail), cOptF64p(m.Metal), cOptF64p(m.Rough), em, al, cOptF64p(m.Cutoff), cList(slots), cStrs(m.Exts))
+		mats[i] = fmt.Sprintf("{| gmt_name := %s; gmt_color := %s; gmt_metal := %s; gmt_rough := %s; gmt_emissive := %s; gmt_alpha := %s; gmt_cutoff := %s; gmt_texs := %s; gmt_exts := %s; gmt_extras := %s |}",
+			cstr(m.Name), millis(m.Color, fail), cOptF64p(m.Metal), cOptF64p(m.Rough), em, al, cOptF64p(m.Cutoff), cList(slots), cStrs(m.Exts), nn(m.Extras))
 	}
 	texs := make([]string, len(s.Texs))
 	for i, t := range s.Texs {
